@@ -96,3 +96,40 @@ SPECS['C11'] = dict(
     assumptions=TREE_ASSUME,
     level_text='Exploration over enumerated and seeded trees; independence is checked by actual mutation and release, not only by address comparison.',
     level_note='Source integrity is judged on the byte image of allocator blocks, i.e. without knowledge of the struct layout.')
+
+def fault_jobs(tier, seed):
+    return [Job('drv_fault', 'asan', [], shards=NCPU, timeout=5400)]
+
+SPECS['C06'] = dict(
+    jobs=fault_jobs, level='fault_enumeration', technique='exhaustive enumeration of single-fault and fail-stop allocation schedules per scenario, with live-set and byte-image comparison',
+    rule='Scenarios: every cbor_new_*/cbor_build_* call; push / set(size) / map_add / add_chunk on definite and indefinite containers at every size 0..64 (0..300 thorough); cbor_load, cbor_copy and cbor_serialize_alloc on every E2 encoding (<=2 nodes quick / <=3 thorough) and every E2p encoding; cbor_copy / cbor_serialize_alloc / the construction itself on API-made trees from all 1-byte and seeded construction programs. For each scenario the N allocator requests of a fault-free run are counted, then request k alone (k=0..N-1) and every request from k on are refused: 2N schedules, exhaustive. Oracle: the documented failure channel (NULL / false / 0 with *buffer==NULL and *buffer_size==0 / MEMERROR positioned just past the head that owns the refused request, determined from request counts of prefix decodes); no crash or sanitizer report; the allocator live set after the call equals the live set before, and the byte image of every prior block (arguments, contents, refcounts) is unchanged. Non-trivial = the refused request is not the first (something had to be unwound) or fail-stop mode; distinct by (scenario, k, mode).',
+    assumptions=[COMMON_ASSUME[0], COMMON_ASSUME[2], 'allocation failure is injected only through the allocator installed with cbor_set_allocs; request numbering is deterministic for a given scenario'],
+    level_text='Fault enumeration: for every scenario in the corpus all single-fault and all fail-stop schedules are executed (exhaustive in the fault dimension); the scenario corpus itself is enumerated/sampled.',
+    level_note='Atomicity is judged on the byte image of every block live before the call, so it needs no knowledge of struct layout; scenarios with more than a few hundred requests are only sampled (thorough tier).')
+
+def hist_jobs(tier, seed):
+    return [Job('drv_hist', 'asan', [], shards=NCPU, timeout=5400)]
+
+HIST_ASSUME = [COMMON_ASSUME[0], COMMON_ASSUME[2],
+               'the ownership rules modelled are the documented ones (DESIGN.md Appendix B): containers hold one reference per slot; cbor_tag_set_item on an occupied tag leaves the old reference with the client; cbor_move gives a client reference to the callee; undefined uses (cycles, tag_item on an empty tag, double set_handle) are never generated']
+
+SPECS['C04'] = dict(
+    jobs=hist_jobs, level='exploration', technique='model-based (stateful) testing: generated API histories executed against a shadow ownership graph, refcounts and block liveness compared after every step',
+    rule='HISTX: every history of 1..4 (thorough 1..5) ops over a 32-op alphabet of concrete calls (new of each container kind, incref, decref, intermediate_decref, push, push(move), set, replace, get in/out of range, map_add incl. key==value, add_chunk, tag_set on empty/occupied tags, tag_get, build_tag, copy, load, serialize) on a small pool; HISTR: seeded histories of 4..200 ops over the whole alphabet on 10 client slots with shared children and trees imported from cbor_load / cbor_copy / construction programs. After every step: cbor_refcount of every live item == client references + container edges of the model; every item the model says died in this step was released by the allocator and no item the model says is alive was (allocation serials, not addresses); ASan guards use-after-free/double free; at the end the client drops everything and the allocator live set must be empty. Non-trivial = some item had >=2 owners and a container was released while a child survived or vice versa; distinct by program.',
+    assumptions=HIST_ASSUME,
+    level_text='Exploration with a reference model: exhaustive for short histories over a fixed op alphabet, sampled for long ones.',
+    level_note='The model follows the return values the implementation reports (a refused push takes no reference); whether those return values are right is C12.')
+
+SPECS['C12'] = dict(
+    jobs=hist_jobs, level='exploration', technique='model-based testing against an abstract list: exhaustive short op sequences per container kind/capacity, growth runs with realloc counting, seeded histories',
+    rule='SEQ: arrays: every sequence of up to 5 (thorough 6) calls over {push, set(i), replace(i), get(i)}, i in {0, size-1, size, size+1, size+2}, for definite capacities 0..8 and the indefinite array, plus fill-then-probe runs; maps and chunked strings: every insertion count 0..capacity+12. After every call: return value, size, allocated >= size, fixed capacity of definite containers and element identity through the handle equal the abstract list; out-of-range get is NULL, out-of-range set/replace false. GROW: 1..4096 (thorough 65537) insertions into each indefinite kind, contents checked at checkpoints, reallocation calls <= 4 + 2*ceil(log2(n+1)), capacity never shrinks. HISTR: seeded histories with the same predictions on many containers at once. Non-trivial = the sequence hits a boundary (full definite container, index >= size) or causes >=2 growths.',
+    assumptions=HIST_ASSUME[:2] + ['the logarithmic bound is deliberately loose (doubling needs 1+ceil(log2 n) reallocations); a linear growth policy needs n/k and is caught for n >= 64'],
+    level_text='Exploration with a list model: exhaustive for short sequences per container configuration; growth clause checked at 29 (33) sizes per kind.',
+    level_note='Index classes stand for indices (first, last, size, size+1, size+2); capacities above 8 are only covered by growth runs and seeded histories.')
+
+SPECS['C13'] = dict(
+    jobs=hist_jobs, level='exploration', technique='re-running generated histories and decode pipelines under a tagging allocator and under an mmap arena allocator with ASan malloc/free hooks armed inside every libcbor call',
+    rule='ALOAD: cbor_load / serialized_size / serialize_alloc / copy / release on every E2 (<=2 nodes quick, <=3 thorough) and E2p encoding and single-edit neighbours of every 7th, under an arena allocator with no libc backing: any libc malloc/free observed (ASan hooks) while inside a libcbor call is a bypass; every arena block must be handed back exactly once, no foreign pointer, no second release. STATELESS: streaming decoder, every cbor_encode_*, cbor_serialize and cbor_serialized_size make zero allocator requests and no libc heap call. HISTR/HISTX: the C04 histories under the tagging allocator (hidden header: foreign pointers and double releases are recognised; a header-carrying block handed to libc free is an ASan bad-free) and under the arena with hooks. Non-trivial = history with >=1 realloc and the release of a multi-block item, or an input with >=2 bytes; distinct by program / input.',
+    assumptions=[COMMON_ASSUME[0], COMMON_ASSUME[2], '__sanitizer_install_malloc_and_free_hooks of the clang-14 ASan runtime reports every libc malloc/free; cbor_describe is exempt from the hook window because stdio may allocate (it is still run under the tagging allocator)'],
+    level_text='Exploration: bypass detection is by construction (no libc backing + armed hooks), on every allocation site that the generated histories and inputs reach.',
+    level_note='Allocation sites not reached by the generators are not covered; fault paths (release after a refused allocation) are covered by running C06 scenarios under the tagging allocator, not under the arena.')
